@@ -161,7 +161,8 @@ def built_canon(obj):
       entry = [None]
       nodes.append(entry)
       if isinstance(x, dict):
-        entry[0] = ('dict', tuple(sorted(((repr(k), visit(v)) for k, v in x.items()))))
+        # children are visited in key order so that the labels do not depend on insertion order
+        entry[0] = ('dict', tuple((repr(k), visit(v)) for k, v in sorted(x.items(), key=lambda kv: repr(kv[0]))))
       else:
         entry[0] = (type(x).__name__, tuple(visit(v) for v in x))
       return ('ref', lab)
